@@ -117,8 +117,8 @@ def gen_cases(tier, seed):
         for k in ("depfunc", "isodensity", "histograms", "quantiles"):
             for _ in range(2):
                 cases.append({"kind": k, "sub": int(rng.integers(1 << 31)), "cost": 3})
-    for n in ([1, 2, 17, 1000, 10000] if tier == "quick" else [1, 2, 3, 10, 100, 1000, 5000, 10000] * 5):
-        cases.append({"kind": "reader", "rows": n, "sub": int(rng.integers(1 << 31))})
+    for k, n in enumerate([1, 2, 17, 1000, 10000, 3, 50, 400, 2500] if tier == "quick" else [1, 2, 3, 10, 100, 1000, 5000, 10000, 7] * 5):
+        cases.append({"kind": "reader", "rows": n, "stamps": ["gaps", "repeated-stamps", "unsorted"][k % 3], "sub": int(rng.integers(1 << 31))})
     return cases
 
 
@@ -404,7 +404,16 @@ def _reader(case, ctx, rng):
     tmp = tempfile.mkdtemp(prefix="vmon_c20r_")
     try:
         t0 = pd.Timestamp("1996-01-01 00:00") + pd.Timedelta(hours=int(rng.integers(0, 5000)))
-        times = [t0 + pd.Timedelta(hours=int(h)) for h in np.cumsum(rng.integers(1, 4, n))]
+        hours = np.cumsum(rng.integers(1, 4, n))
+        # time stamps are data too: gaps (default), stamps that repeat (two observations in one hour), rows out of order
+        pattern = case.get("stamps", "gaps")
+        if pattern == "repeated-stamps" and n >= 2:
+            hours = np.cumsum(rng.integers(0, 3, n))
+            hours[1] = hours[0]
+        elif pattern == "unsorted" and n >= 2:
+            hours = rng.permutation(hours)
+        ctx.cls("time-stamps", pattern)
+        times = [t0 + pd.Timedelta(hours=int(h)) for h in hours]
         a = np.round(rng.weibull(1.5, n) * 3, 2)
         b = np.round(rng.lognormal(1.8, 0.3, n), 2)
         cols = [["time (YYYY-MM-DD-HH)", "significant wave height (m)", "zero-up-crossing period (s)"], ["time (YYYY-MM-DD-HH)", "wind speed (m/s)", "significant wave height (m)"]][int(rng.integers(2))]
